@@ -98,6 +98,8 @@ def run(ctx, col, tier):
     repo = ctx.repo
     from ..rules import stateless as _stateless_memo
     _stateless_memo.run_memo(ctx, col)
+    from ..rules import rootpos as _rootpos
+    _rootpos.run(ctx, col, ('swcgeom.core.tree_utils', 'swcgeom.core.tree_utils_impl', 'swcgeom.core.tree', 'swcgeom.transforms.tree', 'swcgeom.transforms.path', 'swcgeom.core.swc_utils.subtree'))
     col.rule("R-PURE", "ownership abstract interpretation of each discovered tree->tree "
              "operation (callees and traversal callbacks expanded): no store through any alias "
              "of an input tree's storage or object; the result is a fresh object none of whose "
